@@ -5,13 +5,14 @@
   Unbounded: every tree shape, every arity mix, every node index, every random choice.
 -/
 import TFV.Model.Tree
-import TFV.Lemmas.Tree
+import TFV.Lemmas.TreeCore
+import TFV.Lemmas.TreeOps
 
 namespace TFV.Tree
 
-/-- every node of the rose tree has as many kids as its symbol's arity -/
-def Consistent (arity : Nat → Nat) : RT → Prop
-  | .node s ks => ks.length = arity s ∧ ∀ k ∈ ks, Consistent arity k
+/-- every node of the rose tree has as many kids as its symbol's arity
+    (`ConsistentRT arity (.node s ks) ↔ ks.length = arity s ∧ ∀ k ∈ ks, ConsistentRT arity k`) -/
+abbrev Consistent := ConsistentRT
 
 /-! ## C09 -/
 
@@ -98,18 +99,6 @@ theorem C09_eqTree (arity : Nat → Nat) (a b : Flat) (ha : WF arity a) (hb : WF
     eqTree a b = true ↔ a = b :=
   eqTree_iff arity a b ha hb
 
-/-- transpose position tuples into one list per tree -/
-def perTree (k : Nat) (tuples : List (List Nat)) : List (List Nat) :=
-  (List.range k).map fun j => tuples.map fun tp => tp.getD j 0
-
-/-- the coded common-region loops (two-tree and k-tree versions) compute the recursive
-    definition: the maximal common top part, borders where arities differ -/
-theorem C09_common_region (ts : List RT) (hk : 2 ≤ ts.length) :
-    commonRegion (ts.map fun t => arities (flat t)) =
-      (perTree ts.length (commonSpec (ts.headD default).size ts (ts.map fun _ => 0)).1,
-       perTree ts.length (commonSpec (ts.headD default).size ts (ts.map fun _ => 0)).2) :=
-  common_region_spec ts hk
-
 /-! ## C08 -/
 
 theorem C08_subtree_wf (arity : Nat → Nat) (l : Flat) (h : WF arity l) (i : Nat) (hi : i < l.length) :
@@ -134,22 +123,6 @@ theorem C08_standardX (arity : Nat → Nat) (a b : Flat) (ha : WF arity a) (hb :
     WF arity c ∧ depth c ≤ L ∧
     (c = a ∨ c = b ∨ c = concat b q (subtree a p) ∨ c = concat a p (subtree b q)) :=
   standardX_spec arity a b ha hb p q hp hq coin L hda hdb
-
-/-- one-point crossover: closed; the exchange happens inside the common region, so the child is
-    no deeper than the deeper parent -/
-theorem C08_onePointX (arity : Nat → Nat) (a b : Flat) (ha : WF arity a) (hb : WF arity b)
-    (k : Nat) (hk : k < (commonRegion2 (arities a) (arities b)).c1.length) (coin : Bool) :
-    WF arity (onePointX a b k coin) ∧ depth (onePointX a b k coin) ≤ max (depth a) (depth b) :=
-  onePointX_spec arity a b ha hb k hk coin
-
-/-- uniform crossover (all four variants: they differ only in how `pool` is drawn) -/
-theorem C08_uniformX (arity : Nat → Nat) (ps : List Flat) (hps : ∀ p ∈ ps, WF arity p)
-    (hk : 2 ≤ ps.length) (pool : List Nat) (hpool : ∀ j ∈ pool, j < ps.length)
-    (hlen : ((commonRegion (ps.map arities)).1.headD []).length ≤ pool.length) :
-    WF arity (uniformX ps pool) ∧
-    depth (uniformX ps pool) ≤ (ps.map depth).foldl max 0 ∧
-    ∀ n ∈ uniformX ps pool, ∃ p ∈ ps, n ∈ p :=
-  uniformX_spec arity ps hps hk pool hpool hlen
 
 /-- point mutation: same-arity symbol replacement; shape unchanged -/
 theorem C08_pointMut (arity : Nat → Nat) (l : Flat) (h : WF arity l) (i : Nat) (hi : i < l.length)
